@@ -59,7 +59,8 @@ def _replay(name, law, other=None):
             "arrays": "X = [v[k] for k in sorted(v) if k.startswith('x')]; Y = [v[k] for k in sorted(v) if k.startswith('y')]\n"
                       "A, B = np.array(X), np.array(Y); r = N.compute(A, B)\n"
                       "col, row = np.array([[X[0]], [X[1]]]), np.array([Y]); r2 = N.compute(col, row)\n"
-                      "bad = not (same(r, [f(p, q) for p, q in zip(X, Y)], tol) and same(r2, [[f(p, q) for q in Y] for p in X[:2]], tol)"
+                      "MA = np.array([[X[0], X[0], X[1]], [X[1], X[0], X[1]]]).T; MB = np.array([[Y[0], Y[1], Y[1]], [Y[0], Y[0], Y[1]]]).T; rT = N.compute(MA, MB)\n"
+                      "bad = not (same(rT, np.vectorize(f)(MA, MB), tol) and same(r, [f(p, q) for p, q in zip(X, Y)], tol) and same(r2, [[f(p, q) for q in Y] for p in X[:2]], tol)"
                       " and same(A, X) and same(B, Y) and same(col, [[X[0]], [X[1]]]) and same(row, [Y]))",
             "dual": f"M = fl.{other}(); bad = not same(float(M.compute(a,b)), 1 - f(1-a,1-b), tol)" if other else "bad = False",
             "fresh": "r1 = np.asarray(N.compute(np.array([a, b]), np.array([c, a2])), dtype=float); r1 *= 0.5; r2 = N.compute(np.array([c, a2]), np.array([a, b]))\n"
@@ -131,7 +132,12 @@ def _ob_law(name, law, is_t, tier):
                 r2 = N.compute(col, row)
                 el1 = [N.compute(x, y) for x, y in zip(xs, ys)]
                 el2 = [[N.compute(x, y) for y in ys] for x in xs[:2]]
-                return r1, el1, r2, el2, xs, ys, (A, B, col, row)
+                # memory layout: transposed views (Fortran order) of 2x3 operands hold the same logical elements
+                MA = [[xs[0], xs[0], xs[1]], [xs[1], xs[0], xs[1]]]
+                MB = [[ys[0], ys[1], ys[1]], [ys[0], ys[0], ys[1]]]
+                rT = N.compute(sym_array(MA).T, sym_array(MB).T)
+                eT = [N.compute(MA[i][j], MB[i][j]) for j in range(3) for i in range(2)]
+                return r1, el1, r2, el2, xs, ys, (A, B, col, row), rT, eT
             raise AssertionError(law)
 
         for p in ob.paths(pre, body):
@@ -194,7 +200,7 @@ def _ob_law(name, law, is_t, tier):
                 ob.prove(pre, p, z3.And(is_val(e3[0], f(a.v, c.v)), is_val(e3[1], f(b.v, a2.v)), is_val(e4[0], f(a.v, c.v)), is_val(e4[1], f(b.v, a2.v))),
                          f"{name}/kinds/sequences", ins3, rp)
             elif law == "arrays":
-                r1, el1, r2, el2, xs, ys, (A, B, col, row) = r
+                r1, el1, r2, el2, xs, ys, (A, B, col, row), rT, eT = r
                 pre2 = [unit(v) for v in xs + ys]
                 n = len(xs)
                 ins2 = {f"x{i}": x for i, x in enumerate(xs)}
@@ -202,6 +208,10 @@ def _ob_law(name, law, is_t, tier):
                 if kind_of(r1) != ("array", (n,)) or kind_of(r2) != ("array", (2, n)):
                     ob.prove(pre2, p, False, f"{name}/arrays/shape {kind_of(r1)} {kind_of(r2)}", ins2, rp)
                     continue
+                if kind_of(rT) != ("array", (3, 2)):
+                    ob.prove(pre2, p, False, f"{name}/arrays/transposed-shape {kind_of(rT)}", ins2, rp)
+                    continue
+                ob.prove(pre2, p, all_same(rT, eT), f"{name}/arrays/memory-layout", ins2, rp)
                 ob.prove(pre2, p, all_same(r1, el1), f"{name}/arrays/1d", ins2, rp)
                 ob.prove(pre2, p, all_same(r2, [e for row in el2 for e in row]), f"{name}/arrays/broadcast", ins2, rp)
                 ob.prove(pre2, p, z3.And(all_same(A, xs), all_same(B, ys), all_same(col, xs[:2]), all_same(row, ys)),
